@@ -93,13 +93,13 @@ func c18Run(c *ev.Ctx, k c18Case) {
 		eps = append(eps, fmt.Sprintf("127.0.0.%d", i+1))
 	}
 	signer, err := crypki.NewSigner(crypki.SignerConfig{TLSClientKeyFile: c17PKI.ClientKeyFile, TLSClientCertFile: c17PKI.ClientCertFile, TLSCACertFiles: files,
-		CrypkiEndpoints: eps, CrypkiPort: uint(c17Farm.port), Retries: 1, PerTryTimeout: 2 * time.Second})
+		CrypkiEndpoints: eps, CrypkiPort: uint(c17Farm.port), Retries: 1, PerTryTimeout: 15 * time.Second})
 	if err != nil {
 		c.Violation("C18:newsigner-refuses-valid-config", err.Error(), k)
 		return
 	}
 	req := &proto.SSHCertificateSigningRequest{KeyMeta: &proto.KeyMeta{Identifier: "slot"}, Principals: []string{"alice"}, PublicKey: c17CertLines[0], Validity: 60}
-	ctx, cancel := context.WithTimeout(context.Background(), 30*time.Second)
+	ctx, cancel := context.WithTimeout(context.Background(), 90*time.Second)
 	defer cancel()
 	var certs []ssh.PublicKey
 	var serr error
